@@ -5,7 +5,7 @@ import z3
 
 from .sorts import (SV, PyVal, PyTuple, Closure, BoundMethod, ModuleRef, ClassRef, SpecFn, INT, BOOL, STR, REAL, VAL, NONE,
                     NONE_V, RefT, SeqT, SetT, MapT, TupT, Val, Ref, null, zsort, fresh, mk_bool, mk_int, mk_str, fresh_name)
-from .values import (OutsideSubset, coerce, box, unbox, py_eq, truthy, ite, tup_items, empty_map, join_sort, is_ref)
+from .values import (nth, OutsideSubset, coerce, box, unbox, py_eq, truthy, ite, tup_items, empty_map, join_sort, is_ref)
 from .state import PyRaise, PathEnd
 
 NORMAL = ('normal',)
@@ -119,9 +119,10 @@ class StmtMixin(object):
         k = coerce(idx, m.sort.k)
         self.raise_if(st, z3.Not(z3.Select(m.c['dom'], k.t)), 'KeyError', 'del dict item')
         keys = m.c['keys']
-        i = z3.IndexOf(keys, z3.Unit(k.t), 0)
         self.assume_map_wf(st, m)
-        nk = z3.Concat(z3.Extract(keys, 0, i), z3.Extract(keys, i + 1, z3.Length(keys) - i - 1))
+        i = z3.Int(fresh_name('delpos'))             # position of the key in insertion order
+        st.assume(z3.And(0 <= i, i < z3.Length(keys), nth(keys, i) == k.t))
+        nk = self.seq_remove_at(st, SV(SeqT(m.sort.k), keys), i).t
         return SV(m.sort, {'dom': z3.Store(m.c['dom'], k.t, z3.BoolVal(False)), 'val': m.c['val'], 'keys': nk})
 
     def map_store(self, m, idx, val, st, target_node=None):
@@ -138,7 +139,7 @@ class StmtMixin(object):
         k, v = coerce(idx, m.sort.k), coerce(val, m.sort.v)
         had = z3.Select(m.c['dom'], k.t)
         return SV(m.sort, {'dom': z3.Store(m.c['dom'], k.t, z3.BoolVal(True)), 'val': z3.Store(m.c['val'], k.t, v.t),
-                           'keys': z3.If(had, m.c['keys'], z3.Concat(m.c['keys'], z3.Unit(k.t)))})
+                           'keys': z3.If(had, m.c['keys'], self.seq_append(st, SV(SeqT(m.sort.k), m.c['keys']), k).t)})
 
     def declared_sort(self, node):
         if isinstance(node, ast.Name):
@@ -154,6 +155,18 @@ class StmtMixin(object):
 
     def exec_AugAssign(self, node, st):
         cur = self.ev(node.target, st)
+        hint = self.ct.ghost.get('list_literal_class')
+        if hint and isinstance(node.op, ast.Add) and isinstance(node.value, ast.List) and is_ref(getattr(cur, 'sort', None)) \
+                and cur.sort.cls == hint:
+            # `cell += [a, b, c]` on a list used as a record: the new items become the next fields of the same object
+            k0 = self.record_len.get(cur.t.sexpr())
+            if k0 is None:
+                raise OutsideSubset('extension of a record of unknown length')
+            for j, e in enumerate(node.value.elts):
+                key = self.reg.field_key(hint, '[%d]' % (k0 + j))
+                self.heap_set(st, key, cur.t, self.ev(e, st))
+            self.record_len[cur.t.sexpr()] = k0 + len(node.value.elts)
+            return NORMAL
         rhs = self.ev(node.value, st)
         if is_ref(getattr(cur, 'sort', None)):
             name = {ast.BitOr: '__ior__', ast.BitAnd: '__iand__', ast.Sub: '__isub__', ast.BitXor: '__ixor__', ast.Add: '__iadd__'}.get(type(node.op))
@@ -367,7 +380,7 @@ class StmtMixin(object):
         if spec is None:
             n = z3.simplify(z3.Length(seq.t))
             if z3.is_int_value(n) and n.as_long() <= 8:
-                return self.unroll_for(node, [SV(seq.sort.elem, z3.simplify(seq.t[i])) for i in range(n.as_long())], st)
+                return self.unroll_for(node, [SV(seq.sort.elem, z3.simplify(nth(seq.t, i))) for i in range(n.as_long())], st)
             raise OutsideSubset('loop %d (line %d) has no invariant' % (k, node.lineno))
         extra = {'_seq': seq, '_i': mk_int(0)}
         for lbl, text in spec.inv.items():
@@ -381,7 +394,7 @@ class StmtMixin(object):
             st.assume(self.spec_bool(text, st, extra))
         if self.choose_n(2, 'for%d' % k) == 0:
             st.assume(i < n)
-            el = SV(seq.sort.elem, seq.t[i])
+            el = SV(seq.sort.elem, nth(seq.t, i))
             self.assume_field_invariant(st, el)
             self.bind_target(node.target, el, st)
             head_heap = dict((key, dict(v)) for key, v in st.heap.items())
